@@ -155,6 +155,12 @@ theorem converges_after_first_redirect (s : RState) (slot seed : Nat)
 /-! ## tie to the code -/
 
 theorem code_matches_model :
+    Gen.Upstream.handleRedirection =
+      ["err := strings.Split(string(resp.Text), \" \")",
+       "if len(err) < 3 { req.SetResponse(resp) return }",
+       "hostAddr := err[2]",
+       "switch strings.ToLower(err[0]) { case MOVED: u.stats.Counter(\"moved\").Inc() u.MakeRequestToHost(hostAddr, req) case ASK: askingReq := newSimpleRequest(newArray( *newBulkString(ASKING), )) u.MakeRequestToHost(hostAddr, askingReq) u.MakeRequestToHost(hostAddr, req) default: req.SetResponse(resp) return }",
+       "u.triggerSlotsRefresh()"] ∧
     Gen.Upstream.getClient =
       ["c, ok := u.loadClients()[addr]",
        "if ok { return c, nil }",
@@ -234,7 +240,7 @@ theorem code_matches_model :
        "l := len(candidates)",
        "if l > 1 { i = int(time.Now().UnixNano()) % l }",
        "return candidates[i], nil"] := by
-  refine ⟨rfl, rfl, rfl, rfl, rfl, rfl, rfl, rfl, rfl⟩
+  refine ⟨rfl, rfl, rfl, rfl, rfl, rfl, rfl, rfl, rfl, rfl⟩
 
 end SamVerif.Props.C07
 
